@@ -94,7 +94,7 @@ PROPS = {
     },
     "C03": {
         "gen": [CONSTS, CHARTABLE],
-        "trusted_base": COMMON_TB + SYNTAX_TB + ["external to the model (parameters): serde_yaml (front matter content is not interpreted; metadata and diagnostics that depend on it are excluded from the compared reply), check_std_entry on `>>` values (until the std-metadata model is plugged in its warnings are excluded from the compared reply), unicase folding (table extracted from the real crate on every run), converter key lookup (table extracted from Converter::bundled() on every run)"] + ["the worker subprocess / watchdog runner of the harness (10 s per case)"],
+        "trusted_base": COMMON_TB + SYNTAX_TB + ["external to the model (parameters): serde_yaml (front matter content is not interpreted; metadata and diagnostics that depend on it are excluded from the compared reply), check_std_entry on `>>` values (until the std-metadata model is plugged in its warnings are excluded from the compared reply), unicase folding (table extracted from the real crate on every run), converter key lookup (table extracted from Converter::bundled() on every run)"] + ["the worker subprocess / watchdog runner of the harness (45 s per case)"],
         "assumptions": ["proved: text assembly never asserts on lexed runs, blocks handed to BlockParser::new are non-empty and without trailing newline, pull_line makes progress; the rest of C03_statement (the panic flag of the model is never set) is compared with the real code's panics per run", 'cannot be exhibited by the model, only observed by the worker/watchdog runs: stack exhaustion, allocation failure, time complexity, panics inside dependencies'],
     },
     "C05": {
